@@ -2914,6 +2914,16 @@ impl Node {
             // This is the only place the high water mark could be updated so any changes
             // to the node state since acquiring the channels lock are irrelevant.
             let mut node_state: MutexGuard<'_, NodeState> = self.get_state();
+            // Raise and persist the high water mark before anything else of this request
+            // becomes durable.  The forget flag written below lets the heartbeat prune the
+            // channel; if the signer stopped after that write and before the mark was
+            // written, the id could be created again after the channel was pruned.
+            if channel_id.oid() > node_state.dbid_high_water_mark {
+                node_state.dbid_high_water_mark = channel_id.oid();
+                self.persister
+                    .update_node(&self.get_id(), &node_state)
+                    .unwrap_or_else(|err| panic!("could not update node state: {:?}", err));
+            }
             match &*channel {
                 ChannelSlot::Stub(_) => {
                     info!("forget_channel stub {}", channel_id);
@@ -2931,12 +2941,6 @@ impl Node {
                         .map_err(|_| internal_error("tracker persist failed"))?;
                 }
             };
-            if channel_id.oid() > node_state.dbid_high_water_mark {
-                node_state.dbid_high_water_mark = channel_id.oid();
-                self.persister
-                    .update_node(&self.get_id(), &node_state)
-                    .unwrap_or_else(|err| panic!("could not update node state: {:?}", err));
-            }
         } else {
             debug!("forget_channel didn't find {}", channel_id);
         }
